@@ -1,6 +1,6 @@
 """C08 - feedback delivers each value exactly one smallest step later (sequence oracle on recorded streams + model)."""
 from __future__ import annotations
-from .runner import Result, Violation
+from .runner import Result, Violation, scaled
 from .gen_core import gen_case, ProgGen, UID, gen_script
 from .prog import Case, S
 from . import model as M
@@ -150,7 +150,7 @@ def gen_collfb(rng, name):
 
 
 def generate(rng, tier, seed):
-    n = 400 if tier == "quick" else 6000
+    n = scaled(400 if tier == "quick" else 6000)
     cases = [gen_fb_case(rng, f"c08_{seed}_{k}") for k in range(n)]
     cases += [gen_collfb(rng, f"c08_{seed}_coll{k}") for k in range(n // 3)]
     cases += [gen_fb_try(rng, f"c08_{seed}_try{k}") for k in range(n // 5)]
